@@ -67,11 +67,15 @@ struct Shm
   // kind are not executed any more (the behaviour is truncated there, as after any deviating step)
   volatile int dev_crashes;
   volatile long skipped_known_crash;
+  // mismatches + crashes that are NOT explained by a named deviation; the driver stops after kMaxBad
+  // of them (the run has failed already; thousands of sanitizer reports would only cost time)
+  volatile long bad;
   // counters
   volatile long behaviours, steps, checks, instances, truncated_alt, truncated_dev, findings;
   volatile long alt_counts[8];
 };
 extern Shm *g_shm;
+const long kMaxBad = 150;
 
 void emit(const json &j);   // unbuffered: a later crash cannot lose the line
 
